@@ -79,6 +79,35 @@ pub fn c09(cx: &Ctx) -> (Vec<Violation>, Cover) {
         },
         1,
     );
+    // starts_before[p] = number of `RunStart` / `Pre` events at positions < p
+    let mut starts_before: Vec<u32> = Vec::with_capacity(a.tr.len() + 1);
+    {
+        let mut n = 0u32;
+        for e in a.tr.iter() {
+            starts_before.push(n);
+            if matches!(e, Ev::RunStart { .. } | Ev::Pre { .. }) {
+                n += 1;
+            }
+        }
+        starts_before.push(n);
+    }
+    // matching `Exit` of every runner `Enter` (positions)
+    let mut exit_of: std::collections::HashMap<usize, usize> = std::collections::HashMap::new();
+    {
+        let mut st: Vec<usize> = vec![];
+        for (p, e) in a.tr.iter().enumerate().take(a.end_pos) {
+            match e {
+                Ev::Hook(HookEv::Enter { .. }) => st.push(p),
+                Ev::Hook(HookEv::Exit { .. }) => {
+                    if let Some(s) = st.pop() {
+                        exit_of.insert(s, p);
+                    }
+                }
+                _ => {}
+            }
+        }
+    }
+    let mut scanned_upto: std::collections::HashMap<usize, usize> = std::collections::HashMap::new();
     // 3/4. in-line and postponed placement for payload deliveries
     for d in cx.dels.iter() {
         let Key::Pay(p) = d.key else { continue };
@@ -109,8 +138,8 @@ pub fn c09(cx: &Ctx) -> (Vec<Violation>, Cover) {
                     let x = &a.runs[xi];
                     cov.count("postponed_deliveries", 1);
                     // was something queued after the busy execution (later sibling)?
-                    let later_sibling = x.parent.map(|b| a.cmds[b].post.map(|bp| a.tr[x.busy_end + 1..bp].iter().any(|e| matches!(e, Ev::RunStart { .. } | Ev::Pre { .. }))).unwrap_or(false)).unwrap_or(false)
-                        || a.cmds.iter().any(|c2| x.parent.map(|b| a.cmds[b].run == c2.run && c2.seq > a.cmds[b].seq).unwrap_or(false));
+                    let later_sibling = x.parent.map(|b| a.cmds[b].post.map(|bp| bp > x.busy_end + 1 && starts_before[bp] > starts_before[x.busy_end + 1]).unwrap_or(false)).unwrap_or(false)
+                        || x.parent.map(|b| a.max_seq_of_run.get(&a.cmds[b].run).copied().unwrap_or(0) > a.cmds[b].seq).unwrap_or(false);
                     if later_sibling {
                         cov.nontrivial = true;
                     }
@@ -152,27 +181,14 @@ pub fn c09(cx: &Ctx) -> (Vec<Violation>, Cover) {
                             ));
                             continue;
                         }
-                        let mut z = re + 1;
+                        // the window of one busy execution is checked incrementally: what an earlier (smaller y) check
+                        // walked through without complaint need not be walked again
+                        let mut z = (re + 1).max(scanned_upto.get(&xi).copied().unwrap_or(0));
+                        let mut clean = true;
+                        let mut top = z;
                         while z < y {
-                            let skip_to = |from: usize| -> usize {
-                                // `from` is an Enter: find its matching Exit
-                                let mut depth = 0i32;
-                                let mut w = from;
-                                while w < a.end_pos {
-                                    match &a.tr[w] {
-                                        Ev::Hook(HookEv::Enter { .. }) => depth += 1,
-                                        Ev::Hook(HookEv::Exit { .. }) => {
-                                            depth -= 1;
-                                            if depth == 0 {
-                                                return w;
-                                            }
-                                        }
-                                        _ => {}
-                                    }
-                                    w += 1;
-                                }
-                                w
-                            };
+                            top = z;
+                            let skip_to = |from: usize| -> usize { exit_of.get(&from).copied().unwrap_or(a.end_pos) };
                             match &a.tr[z] {
                                 Ev::Hook(HookEv::Replay { target }) if *target == ient => {
                                     z = skip_to(z + 1) + 1;
@@ -187,6 +203,7 @@ pub fn c09(cx: &Ctx) -> (Vec<Violation>, Cover) {
                                         format!("a {:?} command for system {target} was processed at {z}, before the postponed run {} of instance {} (execution ended at {re})", kind, r.run, r.inst),
                                         z,
                                     ));
+                                    clean = false;
                                     break;
                                 }
                                 Ev::Hook(HookEv::Replay { target }) => {
@@ -196,6 +213,7 @@ pub fn c09(cx: &Ctx) -> (Vec<Violation>, Cover) {
                                         format!("a postponed command of another system {target} was replayed at {z}, before the postponed run {} of instance {}", r.run, r.inst),
                                         z,
                                     ));
+                                    clean = false;
                                     break;
                                 }
                                 Ev::Pre { cmd, .. } => {
@@ -205,10 +223,15 @@ pub fn c09(cx: &Ctx) -> (Vec<Violation>, Cover) {
                                         format!("command {cmd} started at {z}, before the postponed run {} of instance {} (execution ended at {re})", r.run, r.inst),
                                         z,
                                     ));
+                                    clean = false;
                                     break;
                                 }
                                 _ => z += 1,
                             }
+                        }
+                        if clean {
+                            // resume at the last top-level event of the window (the one whose subtree contains y)
+                            scanned_upto.insert(xi, top);
                         }
                     }
                 }
@@ -266,6 +289,24 @@ pub fn c12(cx: &Ctx) -> (Vec<Violation>, Cover) {
             per.entry((c.run, e.inst)).or_default().push((c.seq, d.key, di));
         }
     }
+    // payload-less keys: how often each reaches a target per op, and which runs of the target observed it
+    let mut delivered_idx: BTreeMap<(Key, usize, Inst), u32> = BTreeMap::new();
+    for d2 in cx.dels.iter() {
+        if matches!(d2.key, Key::Ins(..) | Key::Mut(..)) {
+            let op = a.cmds[d2.cmd].op;
+            for e in d2.exp.iter() {
+                *delivered_idx.entry((d2.key, op, e.inst)).or_insert(0) += e.total;
+            }
+        }
+    }
+    let mut runs_idx: BTreeMap<(Inst, usize, Key), Vec<usize>> = BTreeMap::new();
+    for r in a.runs.iter() {
+        for k in keys_of_obs(&r.obs) {
+            if matches!(k, Key::Ins(..) | Key::Mut(..)) {
+                runs_idx.entry((r.inst, r.op, k)).or_default().push(r.pos);
+            }
+        }
+    }
     for ((sender, target), mut list) in per {
         list.sort_by_key(|x| x.0);
         cov.relevant = true;
@@ -294,17 +335,12 @@ pub fn c12(cx: &Ctx) -> (Vec<Violation>, Cover) {
                 }
                 Key::Ins(..) | Key::Mut(..) => {
                     // unambiguous only if this key reaches the target exactly once in the op
-                    let delivered: u32 = cx
-                        .dels
-                        .iter()
-                        .filter(|d2| d2.key == *key && a.cmds[d2.cmd].op == op)
-                        .flat_map(|d2| d2.exp.iter())
-                        .filter(|e| e.inst == target)
-                        .map(|e| e.total)
-                        .sum();
-                    let runs: Vec<&RunRec> = a.runs.iter().filter(|r| r.inst == target && r.op == op && keys_of_obs(&r.obs).contains(key)).collect();
-                    if delivered == 1 && runs.len() == 1 {
-                        seq_pos.push((*seq, runs[0].pos, *key));
+                    let delivered: u32 = delivered_idx.get(&(*key, op, target)).copied().unwrap_or(0);
+                    let runs = runs_idx.get(&(target, op, *key));
+                    if let (1, Some(rs)) = (delivered, runs) {
+                        if rs.len() == 1 {
+                            seq_pos.push((*seq, rs[0], *key));
+                        }
                     }
                 }
                 _ => {}
